@@ -1,4 +1,5 @@
 import AscaVerif.Props.C03
+import AscaVerif.Props.C12
 /-! # C14, end to end — a segmental rule never touches the prosodic tier
 
 `Props/C14.lean` proves the tier separation for the single edits (`apply_seg_mods` without suprasegmentals keeps stress,
@@ -25,5 +26,41 @@ theorem literal_rule_keeps_prosody (r : SubRule) (a t : Seg) (hin : r.input = [.
     w'.sylls.length = w.sylls.length ∧
     ∀ i : Nat, (w'.sylls[i]?).map (fun σ : Syll => (σ.stress, σ.tone)) = (w.sylls[i]?).map (fun σ : Syll => (σ.stress, σ.tone)) :=
   rewrites_prosody a t w w' (basic_rule_sound_env r a t hin hout hty fuel w w' hne h).1
+
+
+/-- a sub-rule of the segmental form: one segment element in, one matrix without length/stress/tone out -/
+def Segmental (s : SubRule) : Prop :=
+  ∃ it mods, SegItem it ∧ s.input = [it] ∧ s.output = [.matrix mods none] ∧ mods.suprs = {} ∧ s.ruleType = .substitution
+
+/-- **whole rules**: a rule all of whose sub-rules are segmental (a plain rule, or a condensed rule
+    `p, t, k > [+voice], [+cont], [-voice] / …` with whatever environments) keeps the shape of every word it returns -/
+theorem segmental_rule_keeps_shape (fuel : Nat) (r : Rule) (subs : List SubRule) (hsplit : splitIntoSubrules r = .ok subs)
+    (hall : ∀ s ∈ subs, Segmental s) (w w' : Word) (hne : NoEmptySyll w) (h : applyRule fuel r w = .ok w') : SameShape w w' := by
+  rw [C12.applyRule_is_fold fuel r w subs hsplit] at h
+  clear hsplit
+  induction subs generalizing w with
+  | nil => simp [List.foldlM] at h; subst h; exact sameShape_refl w
+  | cons s rest ih =>
+    simp only [List.foldlM_cons] at h
+    cases hs : applySubRule fuel s w with
+    | ok w1 =>
+      rw [hs] at h
+      simp only [Outcome.bind_ok] at h
+      obtain ⟨it, mods, h1, h2, h3, h4, h5⟩ := hall s (by simp)
+      have hsh := feature_subrule_keeps_shape s it h1 mods h2 h3 h4 h5 fuel w w1 hne hs
+      have hne1 := noEmptySyll_of_sameShape w w1 hsh hne
+      exact sameShape_trans hsh (ih (fun x hx => hall x (by simp [hx])) w1 hne1 h)
+    | err e => rw [hs] at h; simp at h
+    | panic e => rw [hs] at h; simp at h
+    | outOfFuel e => rw [hs] at h; simp at h
+
+/-- `t > [matrix]` -/
+def demoRule : SubRule :=
+  { input := [Item.ipa (⟨4#8, 0#8, 0#8, some 16896#16⟩ : Seg) none], output := [Item.matrix Modifiers.empty none],
+    context := none, except := none, ruleType := .substitution }
+
+/-- the hypotheses are met -/
+example : Segmental demoRule :=
+  ⟨Item.ipa (⟨4#8, 0#8, 0#8, some 16896#16⟩ : Seg) none, Modifiers.empty, trivial, rfl, rfl, rfl, rfl⟩
 
 end Asca.C14Scan
